@@ -338,6 +338,9 @@ func pathDepth(v ssa.Value, d int) string {
 		}
 		return fmt.Sprintf("ext%d(%s)", x.Index, pathDepth(x.Tuple, d+1))
 	case *ssa.Call:
+		if fr, ok := getterField(x); ok {
+			return pathDepth(fr.Base, d+1) + "." + fr.Field
+		}
 		n := CalleeName(x.Common())
 		if pureCallees[n] {
 			var as []string
@@ -459,6 +462,73 @@ func AsFieldLoad(v ssa.Value) (FieldRef, bool) {
 			owner = namedStr(n)
 		}
 		return FieldRef{Owner: owner, Field: canonFieldName(s, x.Field), Base: x.X}, true
+	case *ssa.Call:
+		// a call of a trivial accessor (`func (t *T) F() X { return t.f }`) reads that field of its receiver
+		if fr, ok := getterField(x); ok {
+			return fr, true
+		}
+	}
+	return FieldRef{}, false
+}
+
+// getterField recognises a static call of a function whose whole body is
+// `return param.field` and returns the field reference with the call's
+// argument as base.
+func getterField(c *ssa.Call) (FieldRef, bool) {
+	cal := c.Common().StaticCallee()
+	if cal == nil || len(cal.Blocks) != 1 || len(cal.Params) == 0 || c.Common().IsInvoke() {
+		return FieldRef{}, false
+	}
+	var real []ssa.Instruction
+	for _, in := range cal.Blocks[0].Instrs {
+		if _, dbg := in.(*ssa.DebugRef); dbg {
+			continue
+		}
+		real = append(real, in)
+	}
+	n := len(real)
+	if n < 2 || n > 3 {
+		return FieldRef{}, false
+	}
+	ret, ok := real[n-1].(*ssa.Return)
+	if !ok || len(ret.Results) != 1 {
+		return FieldRef{}, false
+	}
+	for _, in := range real[:n-1] {
+		switch in.(type) {
+		case *ssa.FieldAddr, *ssa.UnOp, *ssa.Field:
+		default:
+			return FieldRef{}, false
+		}
+	}
+	var inner FieldRef
+	switch r := ret.Results[0].(type) {
+	case *ssa.UnOp:
+		if r.Op != token.MUL {
+			return FieldRef{}, false
+		}
+		fr, ok := AsFieldAddr(r.X)
+		if !ok {
+			return FieldRef{}, false
+		}
+		inner = fr
+	case *ssa.Field:
+		fr, ok := AsFieldLoad(r)
+		if !ok {
+			return FieldRef{}, false
+		}
+		inner = fr
+	default:
+		return FieldRef{}, false
+	}
+	prm, ok := inner.Base.(*ssa.Parameter)
+	if !ok {
+		return FieldRef{}, false
+	}
+	for i, q := range cal.Params {
+		if q == prm && i < len(c.Common().Args) {
+			return FieldRef{Owner: inner.Owner, Field: inner.Field, Base: c.Common().Args[i]}, true
+		}
 	}
 	return FieldRef{}, false
 }
@@ -573,6 +643,9 @@ func LitOf(c ssa.Value, pol bool) Lit {
 			return Lit{Kind: "cmp", Op: op, X: x.X, Y: x.Y, Pol: pol}
 		}
 	case *ssa.Call:
+		if _, isGetter := getterField(x); isGetter {
+			return Lit{Kind: "bool", Of: c, Pol: pol} // a trivial accessor: the field read itself
+		}
 		return Lit{Kind: "call", Callee: CalleeName(x.Common()), Args: CallArgs(x.Common()), Of: x, Pol: pol}
 	case *ssa.Extract:
 		switch t := x.Tuple.(type) {
@@ -1294,6 +1367,11 @@ func LitImpliesGreater(l Lit, k int64) bool {
 	if !ok {
 		return false
 	}
+	if k == 0 && c == 0 && l.Op == token.EQL && !l.Pol {
+		if cl, ok := l.X.(*ssa.Call); ok && CalleeName(cl.Common()) == "builtin.len" {
+			return true // a length that is not zero is positive
+		}
+	}
 	switch {
 	case l.Op == token.GTR && l.Pol && c == k:
 		return true
@@ -1320,7 +1398,11 @@ type BoolCase struct {
 
 // BoolCases enumerates the cases of a function with a single boolean result
 // (phi nodes of short-circuit operators are expanded two levels).
-func BoolCases(f *ssa.Function) []BoolCase {
+func BoolCases(f *ssa.Function) []BoolCase { return BoolCasesAt(f, -1) }
+
+// BoolCasesAt is BoolCases for the boolean result at index idx of a function
+// with several results (-1: the single result).
+func BoolCasesAt(f *ssa.Function, idx int) []BoolCase {
 	var out []BoolCase
 	var expand func(v ssa.Value, lits []Lit, d int)
 	expand = func(v ssa.Value, lits []Lit, d int) {
@@ -1342,10 +1424,92 @@ func BoolCases(f *ssa.Function) []BoolCase {
 		}
 	}
 	for _, r := range Returns(f) {
-		if len(r.Results) != 1 {
+		i := idx
+		if i < 0 {
+			if len(r.Results) != 1 {
+				return nil
+			}
+			i = 0
+		}
+		if i >= len(r.Results) {
 			return nil
 		}
-		expand(r.Results[0], Lits(Guards(r.Block())), 0)
+		expand(r.Results[i], Lits(Guards(r.Block())), 0)
+	}
+	return out
+}
+
+// ExpandLits replaces every literal that tests the boolean result of a private
+// helper (`if helper(x)`, `v, ok := helper(x); if ok`) by the literals that
+// provably hold inside the helper whenever it produces that result (the
+// intersection over its feasible cases). Those literals are expressed over
+// the helper's own values. Literals nothing is known about are kept.
+func (p *Prog) ExpandLits(ls []Lit) []Lit {
+	var out []Lit
+	for _, l := range ls {
+		var cl *ssa.Call
+		idx := -1
+		switch l.Kind {
+		case "call":
+			cl, _ = l.Of.(*ssa.Call)
+		case "bool":
+			switch x := l.Of.(type) {
+			case *ssa.Extract:
+				cl, _ = x.Tuple.(*ssa.Call)
+				idx = x.Index
+			case *ssa.Call:
+				cl = x
+			}
+		}
+		if cl == nil {
+			out = append(out, l)
+			continue
+		}
+		h := cl.Common().StaticCallee()
+		if !p.PrivateHelper(h) {
+			out = append(out, l)
+			continue
+		}
+		cases := BoolCasesAt(h, idx)
+		var common map[string]Lit
+		n := 0
+		for _, c := range cases {
+			k, isC := ConstBool(c.Val)
+			if isC && k != l.Pol {
+				continue
+			}
+			m := map[string]Lit{}
+			for _, x := range p.ExpandLits(c.Lits) {
+				m[x.String()] = x
+			}
+			if !isC {
+				for _, x := range p.ExpandLits([]Lit{LitOf(c.Val, l.Pol)}) {
+					m[x.String()] = x
+				}
+			}
+			if n == 0 {
+				common = m
+			} else {
+				for key := range common {
+					if _, ok := m[key]; !ok {
+						delete(common, key)
+					}
+				}
+			}
+			n++
+		}
+		if n == 0 {
+			out = append(out, l)
+			continue
+		}
+		var keys []string
+		for key := range common {
+			keys = append(keys, key)
+		}
+		sort.Strings(keys)
+		for _, key := range keys {
+			out = append(out, common[key])
+		}
 	}
 	return out
 }
